@@ -423,9 +423,11 @@ fn cmd_parse() {
 struct CutEval {
     calls: std::sync::Arc<std::sync::atomic::AtomicU64>,
     k: u64,
-    sleep_ms: u64,
+    skew_ms: u64,
     flag: Option<std::sync::Arc<std::sync::atomic::AtomicBool>>,
     cut_len: std::sync::Arc<std::sync::atomic::AtomicI64>,
+    cut_loads: std::sync::Arc<std::sync::atomic::AtomicI64>,
+    cut_reads: std::sync::Arc<std::sync::atomic::AtomicI64>,
 }
 impl Evaluator for CutEval {
     fn evaluate(&self, board: &mut Board) -> crate::search::Score {
@@ -434,11 +436,14 @@ impl Evaluator for CutEval {
         if n == self.k {
             let len = crate::search::verif::TRACE.lock().unwrap().as_ref().map_or(0, |v| v.len()) as i64;
             self.cut_len.store(len, Ordering::SeqCst);
+            self.cut_loads.store(crate::search::verif::LOADS.load(Ordering::SeqCst) as i64, Ordering::SeqCst);
+            self.cut_reads.store(crate::search::verif::READS.load(Ordering::SeqCst) as i64, Ordering::SeqCst);
             if let Some(f) = &self.flag {
                 f.store(false, Ordering::SeqCst);
             }
-            if self.sleep_ms > 0 {
-                std::thread::sleep(std::time::Duration::from_millis(self.sleep_ms));
+            if self.skew_ms > 0 {
+                // the clock jumps: every later reading is skew_ms further on (guarded hook)
+                crate::search::verif::SKEW_MS.store(self.skew_ms, Ordering::SeqCst);
             }
         }
         SimpleEvaluator.evaluate(board)
@@ -446,7 +451,12 @@ impl Evaluator for CutEval {
 }
 
 /// search: stdin lines "FEN | moves | spec;spec;..." with spec = d<depth>[n<nodes>][x] (x = cache
-/// switched off).  The cache is emptied at the start of every line, not between the specs of a line.
+/// switched off), optionally l (pass the depth as a limit too), t w:b:wi:bi (clocks), and one interruption
+/// forced at the K-th leaf evaluation: s<K> a stop (flag cleared), c<K> the game clock (budget 30000 ms, the
+/// clock then jumps 60000 ms), m<K> movetime 30000 with the same jump, k<K> NO time limit and the clock
+/// jumps by 10^10 ms (the search must not care).  RESULT reports cut_loads / cut_reads: how many flag loads /
+/// clock readings the search had made when the interruption was forced (guarded counters).
+/// The cache is emptied at the start of every line, not between the specs of a line.
 /// Output: the engine's own info/bestmove lines between "BEGIN k" and "END k", plus one
 /// "RESULT {json}" line per spec.
 fn cmd_search() {
@@ -491,6 +501,8 @@ fn cmd_search() {
             let mut off = false;
             let mut stop_at: Option<u64> = None;
             let mut clock_at: Option<u64> = None;
+            let mut movetime_at: Option<u64> = None;
+            let mut skew_at: Option<u64> = None;
             let mut clocks: Option<Vec<u128>> = None;
             let mut cur = String::new();
             let mut mode = ' ';
@@ -503,6 +515,10 @@ fn cmd_search() {
                     stop_at = cur.parse().ok();
                 } else if mode == 'c' {
                     clock_at = cur.parse().ok();
+                } else if mode == 'm' {
+                    movetime_at = cur.parse().ok();
+                } else if mode == 'k' {
+                    skew_at = cur.parse().ok();
                 } else if mode == 't' {
                     clocks = Some(cur.split(':').filter_map(|x| x.parse().ok()).collect());
                 }
@@ -530,8 +546,15 @@ fn cmd_search() {
                 limits = limits.depth(depth);
             }
             if clock_at.is_some() {
-                limits = limits.white_time(Some(2000)).black_time(Some(2000));
+                // time-management budget 600000/20 = 30000 ms: never reached by the real clock
+                limits = limits.white_time(Some(600_000)).black_time(Some(600_000));
             }
+            if movetime_at.is_some() {
+                limits = limits.movetime(Some(30_000));
+            }
+            crate::search::verif::LOADS.store(0, std::sync::atomic::Ordering::SeqCst);
+            crate::search::verif::READS.store(0, std::sync::atomic::Ordering::SeqCst);
+            crate::search::verif::SKEW_MS.store(0, std::sync::atomic::Ordering::SeqCst);
             if let Some(c) = &clocks {
                 if c.len() == 4 {
                     limits = limits
@@ -543,18 +566,32 @@ fn cmd_search() {
             }
             let mut search = Search::new(&board, Some(limits));
             let cut_len = std::sync::Arc::new(std::sync::atomic::AtomicI64::new(-1));
+            let cut_loads = std::sync::Arc::new(std::sync::atomic::AtomicI64::new(-1));
+            let cut_reads = std::sync::Arc::new(std::sync::atomic::AtomicI64::new(-1));
             let ev = CutEval {
                 calls: std::sync::Arc::new(std::sync::atomic::AtomicU64::new(0)),
-                k: stop_at.or(clock_at).unwrap_or(0),
-                sleep_ms: if clock_at.is_some() { 160 } else { 0 },
+                k: stop_at.or(clock_at).or(movetime_at).or(skew_at).unwrap_or(0),
+                // k: no time limit at all, and the clock jumps by about four months
+                skew_ms: if skew_at.is_some() {
+                    10_000_000_000
+                } else if clock_at.is_some() || movetime_at.is_some() {
+                    60_000
+                } else {
+                    0
+                },
                 flag: if stop_at.is_some() { Some(search.running.clone()) } else { None },
                 cut_len: cut_len.clone(),
+                cut_loads: cut_loads.clone(),
+                cut_reads: cut_reads.clone(),
             };
             let r = catch_unwind(AssertUnwindSafe(|| {
                 search.search(&ev, depth);
             }));
             let timer = search.verif_timer().map_or(-1i128, |x| x as i128);
             let cut = cut_len.load(std::sync::atomic::Ordering::SeqCst);
+            let cut_l = cut_loads.load(std::sync::atomic::Ordering::SeqCst);
+            let cut_r = cut_reads.load(std::sync::atomic::Ordering::SeqCst);
+            crate::search::verif::SKEW_MS.store(0, std::sync::atomic::Ordering::SeqCst);
             let trace = crate::search::verif::TRACE.lock().unwrap().take().unwrap_or_default();
             crate::search::verif::CACHE_OFF.store(false, std::sync::atomic::Ordering::Relaxed);
             let (bm, bs, n, sd) = search.verif_result();
@@ -575,11 +612,13 @@ fn cmd_search() {
                 })
                 .collect();
             println!(
-                "RESULT {{\"panic\":{},\"spec\":\"{}\",\"timer\":{},\"cut\":{},\"best\":{},\"score\":{},\"nodes\":{},\"seldepth\":{},\"writes\":[{}]}}",
+                "RESULT {{\"panic\":{},\"spec\":\"{}\",\"timer\":{},\"cut\":{},\"cut_loads\":{},\"cut_reads\":{},\"best\":{},\"score\":{},\"nodes\":{},\"seldepth\":{},\"writes\":[{}]}}",
                 r.is_err(),
                 spec,
                 timer,
                 cut,
+                cut_l,
+                cut_r,
                 bm.map_or("null".to_string(), |p| enc_ply(&p)),
                 bs.map_or("null".to_string(), |x| x.to_string()),
                 n,
